@@ -1,5 +1,5 @@
 (* Parametric (unbounded width) theorems of property C16. *)
-From Coq Require Import ZArith List Bool Lia Reals.
+From Coq Require Import ZArith List Bool Lia Reals Lra.
 From Flocq Require Import Core.Zaux Core.Raux Core.Defs Core.Float_prop.
 From FpyV Require Import Num.RealFloat Num.RealFloatProofs Num.Float Num.FloatProofs Num.Formats Num.Layout.
 Import ListNotations.
@@ -110,6 +110,7 @@ Proof.
   rewrite shiftl1_pow by lia.
   destruct (Z.ltb_spec b 0); [lia|]. destruct (Z.geb_spec b (2 ^ nbits)); [lia|]. simpl orb. cbv iota.
   rewrite Hm, Hx, Hs, HE, HT, Hmag, Hc, Htop, Hem. fold M. cbv zeta.
+  change ((b / 2 ^ M) mod 2 ^ es) with E. change (b mod 2 ^ M) with T.
   set (s := b / 2 ^ (nbits - 1) =? 1).
   set (bias := (if es =? 0 then 0 else 2 ^ (es - 1) - 1) - e_eoffset f).
   set (mag := b mod 2 ^ (nbits - 1)).
@@ -123,7 +124,7 @@ Proof.
     destruct (Z.eqb_spec E 0) as [E0|E0].
     + destruct (Z.eqb_spec E (2 ^ es - 1)) as [E1|E1]; [|reflexivity].
       exfalso. assert (2 <= 2 ^ es) by (change 2 with (2 ^ 1) at 1; apply Z.pow_le_mono_r; lia). lia.
-    + destruct (Z.eqb_spec E (2 ^ es - 1)); [reflexivity|]. do 3 f_equal. lia.
+    + destruct (Z.eqb_spec E (2 ^ es - 1)); [destruct (e_inf f && (T =? 0)); reflexivity|]. do 3 f_equal. lia.
   - (* MAX_VAL *)
     destruct (mag =? 2 ^ (nbits - 1) - 1); [reflexivity|].
     destruct (e_inf f && (mag =? 2 ^ (nbits - 1) - 1 - 1)); [reflexivity|]. f_equal. exact Hfin.
@@ -138,4 +139,30 @@ Proof.
   - (* NONE *)
     destruct (e_inf f && (mag =? 2 ^ (nbits - 1) - 1)); [reflexivity|].
     simpl nan_kind_eqb. rewrite andb_false_r. f_equal. exact Hfin.
+Qed.
+
+(* ---------------------------------------------------------------- meaning of the boolean equivalences used in the statements *)
+Theorem fl_equiv_sound x y : fl_wf x -> fl_wf y -> fl_equiv x y = true ->
+  match x, y with
+  | FFin a, FFin b => R2R a = R2R b /\ (rc a = 0 -> rs a = rs b)
+  | FInf s, FInf t => s = t
+  | FNaN _, FNaN _ => True
+  | _, _ => False
+  end.
+Proof.
+  intros Wx Wy E. destruct x as [a|s|s], y as [b|t|t]; simpl in *; try discriminate; auto.
+  - apply andb_prop in E. destruct E as [E1 E2]. split.
+    + apply eq_iff_denote; assumption.
+    + intros Z0. unfold is_zero in E2. rewrite Z0 in E2. simpl in E2. apply eqb_prop. exact E2.
+  - apply eqb_prop. exact E.
+Qed.
+
+Theorem rf_order_sound a b : rf_wf a -> rf_wf b ->
+  (rf_eqb a b = true <-> R2R a = R2R b) /\
+  (rf_leb a b = true <-> (R2R a <= R2R b)%R) /\
+  (rf_compare a b = Lt <-> (R2R a < R2R b)%R).
+Proof.
+  intros Wa Wb. split; [apply eq_iff_denote; assumption|].
+  unfold rf_leb. rewrite compare_denote by assumption.
+  destruct (Rcompare_spec (R2R a) (R2R b)) as [L|E|G]; (split; split; intros Hh); try reflexivity; try discriminate; try lra.
 Qed.
